@@ -1116,6 +1116,7 @@ DLLIMPORT cfg_value_t *cfg_setopt(cfg_t *cfg, cfg_opt_t *opt, const char *value)
 DLLIMPORT int cfg_opt_setmulti(cfg_t *cfg, cfg_opt_t *opt, unsigned int nvalues, char **values)
 {
 	cfg_opt_t old;
+	char *comment;
 	unsigned int i;
 
 	if (!opt || !nvalues) {
@@ -1127,6 +1128,11 @@ DLLIMPORT int cfg_opt_setmulti(cfg_t *cfg, cfg_opt_t *opt, unsigned int nvalues,
 	opt->nvalues = 0;
 	opt->values = NULL;
 
+	/* The annotation stays with the option, whatever the outcome */
+	comment = opt->comment;
+	opt->comment = NULL;
+	old.comment = NULL;
+
 	for (i = 0; i < nvalues; i++) {
 		if (cfg_setopt(cfg, opt, values[i]))
 			continue;
@@ -1135,6 +1141,7 @@ DLLIMPORT int cfg_opt_setmulti(cfg_t *cfg, cfg_opt_t *opt, unsigned int nvalues,
 		cfg_free_value(opt);
 		opt->nvalues = old.nvalues;
 		opt->values = old.values;
+		opt->comment = comment;
 		opt->flags &= ~(CFGF_RESET | CFGF_MODIFIED);
 		opt->flags |= old.flags & (CFGF_RESET | CFGF_MODIFIED);
 
@@ -1142,6 +1149,7 @@ DLLIMPORT int cfg_opt_setmulti(cfg_t *cfg, cfg_opt_t *opt, unsigned int nvalues,
 	}
 
 	cfg_free_value(&old);
+	opt->comment = comment;
 	opt->flags |= CFGF_MODIFIED;
 
 	return CFG_SUCCESS;
